@@ -13,8 +13,25 @@ ASSUMPTIONS = [
     "honest-payload completeness is tested on MockMiner output under regtest parameters",
 ]
 META = {
-    "text": "",
-    "note": "",
+    "text": "Theorems (Coq 8.16, all inputs, no axioms): the contiguous search of checkBitcoinTransactionForPoPData accepts exactly the "
+            "byte lists that contain the data as a substring (sound + complete); containsSplit accepts only well-formed splits whose "
+            "in-buffer chunks concatenate to the data and never reads outside the transaction or its chunk table (after fix a50e5e9b; "
+            "the old code is kept as _v0 with a refuting witness, like the subsequence defect 5481700d and the network-byte defect "
+            "9903a5a0); both Merkle-path flavours: check passes => subject = tx hash and the bit-indexed fold equals the root; "
+            "checkVbkPopTx/checkVbkTx/checkATV/checkVTB/checkVbkBlocks pipelines over oracle section variables: context contiguous + PoW, "
+            "address derived + signature verifies, publication data names the chain and authenticates the header; checkPopData => limits, "
+            "all payloads valid, NoDup ids; the checked flags are only set after a complete success for every call sequence; honest "
+            "payloads are accepted under explicit premises on the oracles. Completeness of split embeddings holds under the premise 'no "
+            "byte 0x92 before the magic' and is REFUTED without it (C05_split_complete_refuted = confirmed F11, C05_split_resync_refuted): "
+            "completeness-only limits of the code, documented, not violations. Tie to the code: extracted model vs rebuilt library on "
+            "generated Bitcoin-transaction layouts (verdict + reject reason) and on MockMiner payloads with every single-field mutation "
+            "(leaf facts measured with library primitives -> extracted pipeline -> verdict + failing stage), plus an independent C++ "
+            "embedding decoder and the mutation/honest oracles.",
+    "note": "Trusted: Coq kernel, extraction (ExtrOcamlBasic), OCaml driver incl. its SHA-256, C++ harness incl. its independent split "
+            "decoder/encoder, Python generators. Oracles (section variables, not verified): SHA-256, secp256k1 verify, address derivation, "
+            "BTC/VBK proof-of-work predicates, VBK plausibility, context-info root, altchain header callback. Honest completeness of whole "
+            "payloads is proved for contiguous embeddings and tested (not proved) for MockMiner split layouts; PopData estimateSize is an "
+            "abstract number (C11 owns its exactness). The ASan stage runs in quick only when the ASan library variant is prebuilt.",
     "technique": "Coq proof (induction over byte lists / path layers / call sequences) + extraction-based "
                  "differential correspondence + independent C++ embedding oracle + field-mutation oracle",
 }
@@ -175,6 +192,8 @@ def run_embed(ctx, model, harness, harness_asan):
         ctx.broken.append("harness: addr op failed: " + err[-200:])
         return
     scale = 1 if ctx.tier == "quick" else 12
+    if ctx.replay and "cases" not in ctx.replay and "pcases" in ctx.replay:
+        return
     if ctx.replay and "cases" in ctx.replay:
         cases = [tuple(c) for c in ctx.replay["cases"]]
         hist = {"replay": len(cases)}
@@ -340,7 +359,7 @@ def gen_payload_cases(ctx):
             C.add("atv/v.cb.other", "atv", V, "v.cb." + f, str(r.range(1, 60)), "0", "N")
         signed = [("t.net", [0, 0xaa, 0xff, 256], "R"), ("t.type", [7], "N"), ("t.addr", [0], "R"), ("t.pubkey", [0] + bits(700, 2), "R"),
                   ("t.amount", [-1000, 5], "N"), ("t.sigindex", [1], "N"), ("t.outputs", [256, 300], "R"), ("t.outputs", [1, 255], "N"),
-                  ("t.overspend", [1, 1000], "R"), ("t.overspend", [0], "N"), ("t.pd.id", [1, -1, 1 << 40], "R"),
+                  ("t.overspend", [1, 1000], "R"), ("t.overspend", [0], "N"), ("t.overflow", [2, 4, 8], "R"), ("t.pd.id", [1, -1, 1 << 40], "R"),
                   ("t.pd.header", bits(8 * 70, 4 * reps), "R"), ("t.pd.ctx", bits(8 * 40, 4 * reps), "R"), ("t.pd.ctx.trunc", [0], "R"),
                   ("t.pd.payout", [3], "N")]
         for m, ks, claim in signed:
@@ -440,7 +459,7 @@ def run_payload(ctx, model, harness):
     if ctx.replay and "pcases" in ctx.replay:
         cases = [tuple(c) for c in ctx.replay["pcases"]]
         hist = {"replay": len(cases)}
-    elif ctx.replay:
+    elif ctx.replay and "cases" in ctx.replay:
         return
     else:
         C = gen_payload_cases(ctx)
@@ -490,9 +509,8 @@ def run_payload(ctx, model, harness):
     # direct oracle: honest accepted, non-neutral mutation rejected, memo flag == verdict
     for i, text in orc[:5]:
         c = byid.get(i)
-        key = None
         ctx.violation({"kind": "input", "pcases": [list(c)] if c else [], "oracle": text,
-                       "impl": ires.get(i, "")[:300], "model": mres.get(i)}, key=key)
+                       "impl": ires.get(i, "")[:300], "model": mres.get(i)})
     # decision pipeline vs model: the model is the proved specification of the pipeline over the measured leaf facts
     for cid, why in bad[:5]:
         c = byid.get(cid)
@@ -533,9 +551,14 @@ def run(ctx):
         ctx.broken.append("harness-build: " + hlog[-300:])
     if not (okm and okh):
         return
-    oka, hsa, alog = vlib.build_harness(["h_stateless"], "asan")
-    if not oka:
-        ctx.broken.append("harness-build(asan): " + alog[-300:])
+    # the sanitizer stage needs the ASan library variant: always in thorough; in quick only when it is already built for
+    # this repo (setup.sh prebuilds it for /repo), so that a scratch repo does not pay a second full library build
+    oka, hsa = False, {}
+    if ctx.tier == "thorough" or os.path.exists(vlib.lib_path("asan")):
+        oka, hsa, alog = vlib.build_harness(["h_stateless"], "asan")
+        if not oka:
+            ctx.broken.append("harness-build(asan): " + alog[-300:])
+    ctx.cov["asan_stage"] = "run" if oka else "skipped (ASan library variant not built for this repo; quick tier)"
     ctx.cov["rule"] = ("distinct = distinct (op, arguments) lines; embedding layouts: contiguous at every offset, one foreign "
                        "byte at every position, interleavings, every n x offset-width x length-width x table-position split "
                        "shape, truncations, stray/partial magics, offsets at/past the end, fuzzed descriptors")
